@@ -91,6 +91,11 @@ class Facts:
                 # a renamed/moved fn is aliased back to the name the rules know (rules/fnalias.py); ambiguous cases are left alone
                 d, mp = fnalias.recover(key, d)
                 self.aliases.update(mp)
+            if not os.environ.get("VERIF_NO_UNEXTRACT"):
+                # a helper the baseline does not know is inlined back into its callers (rules/unextract.py)
+                import unextract
+                d, inl = unextract.undo(key, d)
+                self.unextracted = getattr(self, "unextracted", []) + inl
             self.crates[key] = Crate(d)
         self.templates = json.load(open(os.path.join(self.dir, "templates.json")))
         self._tmpl_ix = {}
@@ -1006,6 +1011,19 @@ class Canon:
                             env2[p["name"]] = self.r(a, depth + 1, env)
                     if len(env2) == len(ch["params"]):
                         return sub.r(body["tail"], depth + 1, env2)
+            if n.get("res") == "local" and isinstance(n.get("f"), dict) and depth < self.max_depth:
+                # a call of a closure bound by `let`: its body, with the parameters replaced by the arguments
+                fp = strip_refs(n["f"])
+                if fp.get("k") == "path" and fp.get("res") == "local" and not (env and fp["path"] in env):
+                    b = scope_binding(self.h, self.ancestors(fp), fp["path"], fp)
+                    if b and b[0] == "let" and b[2] is None and isinstance(b[1].get("init"), dict) and b[1]["init"].get("k") == "closure":
+                        clo = b[1]["init"]
+                        ps = clo.get("params", [])
+                        if len(ps) == len(n.get("args", [])) and all(p_.get("k") == "bind" for p_ in ps):
+                            env2 = dict(env or {})
+                            for p_, a_ in zip(ps, n["args"]):
+                                env2[p_["name"]] = self.r(a_, depth + 1, env)
+                            return self.r(clo["body"], depth + 1, env2)
             f = short(fn) if fn else self.r(n.get("f"), depth, env)
             return "%s(%s)" % (f, self.r(n.get("args", []), depth, env))
         if k == "ref":
@@ -1163,6 +1181,59 @@ def binding_let(h, use):
         return None
     b = scope_binding(h, _anc_index(h).get(id(use), ()), use["path"], use)
     return b[1] if b and b[0] == "let" else None
+
+
+def alias_root(h, e, depth=0):
+    """the local a (possibly re-bound) reference stands for: follows `let x = &y;` / `let x = y;` chains; returns the source
+    text of the root expression (a local's name when the chain ends in one)"""
+    e0 = strip_refs(e) if isinstance(e, dict) else {}
+    if depth < 6 and e0.get("k") == "path" and e0.get("res") == "local":
+        b = scope_binding(h, _anc_index(h).get(id(e0), ()), e0["path"], e0)
+        if b and b[0] == "let" and b[2] is None and isinstance(b[1].get("init"), dict):
+            init = strip_refs(b[1]["init"])
+            if init.get("k") == "path" and init.get("res") == "local":
+                return alias_root(h, init, depth + 1)
+    return src(e0)
+
+
+def depends_on(h, expr, source, depth=0, seen=None):
+    """does the value of `expr` depend (through locals) on `source`? `source` is a closure node (its parameters) or the
+    scrutinee node of a `for` loop (the loop's element). Decided on bindings, not on rendered text."""
+    if not isinstance(expr, dict) or depth > 8:
+        return False
+    seen = seen if seen is not None else set()
+    anc_ix = _anc_index(h)
+    for x, _ in walk(expr):
+        if x is source:
+            return True
+        if x.get("k") == "path" and x.get("res") == "local":
+            b = scope_binding(h, anc_ix.get(id(x), ()), x["path"], x)
+            if not b:
+                continue
+            if b[0] == "closure":
+                if b[1] is source:
+                    return True
+                continue
+            tgt = b[1]
+            if b[0] == "let":
+                tgt = b[1].get("init")
+            if isinstance(tgt, dict) and id(tgt) not in seen:
+                seen.add(id(tgt))
+                if tgt is source or depends_on(h, tgt, source, depth + 1, seen):
+                    return True
+    return False
+
+
+def param_sources(c, fnq, idx):
+    """[(caller hir, argument node)] for parameter `idx` (receiver = 0 for methods) of the crate-local fn `fnq`"""
+    out = []
+    for hh in c.user_fns():
+        for x, _ in walk(hh["body"]):
+            if x.get("k") in ("call", "mcall") and x.get("fn") == fnq:
+                args = ([x["recv"]] if x.get("k") == "mcall" else []) + list(x.get("args", []))
+                if idx < len(args):
+                    out.append((hh, args[idx]))
+    return out
 
 
 def uses_of_let(h, let_stmt):
